@@ -437,6 +437,38 @@ Definition nsec_canonical_cmp_gen (vs_other : bool) (n1 : name) (t1 : bytes) (n2
   end.
 Definition m_nsec_canonical_cmp := nsec_canonical_cmp_gen nsec_canonical_types_vs_other.
 
+(* SVCB / HTTPS as coded: priority.cmp, then the target with `name_cmp`
+   (today) or `composed_cmp` (T1 reads which), then the params octets.  The
+   canonical form is the plain form: priority, target as is, params. *)
+Definition svcb_canonical_cmp_gen (composed : bool) (p1 : N) (t1 : name) (par1 : bytes)
+           (p2 : N) (t2 : name) (par2 : bytes) : outcome comparison :=
+  match p1 ?= p2 with
+  | Eq =>
+      do c <- (if composed then field_cmp (FNameRaw t1) (FNameRaw t2) else Ok (name_cmp t1 t2));
+      match c with
+      | Eq => Ok (lex_cmp par1 par2)
+      | _ => Ok c
+      end
+  | c => Ok c
+  end.
+Definition m_svcb_canonical_cmp := svcb_canonical_cmp_gen svcb_canonical_target_composed.
+Definition svcb_enc (p : N) (t : name) (par : bytes) : bytes := be16 p ++ wire_abs t ++ par.
+
+(* UnknownRecordData inside ZoneRecordData::Unknown: == looks at the data
+   (and at the type only if T1 finds that comparison); the Hash impl of
+   ZoneRecordData feeds the type and the data *)
+Definition unknown_eq_gen (with_rtype : bool) (r1 : N) (d1 : bytes) (r2 : N) (d2 : bytes) : bool :=
+  (if with_rtype then r1 =? r2 else true) && bytes_eqb d1 d2.
+Definition m_unknown_eq := unknown_eq_gen unknown_eq_compares_rtype.
+Definition unknown_canonical_cmp_gen (with_rtype : bool) (r1 : N) (d1 : bytes) (r2 : N) (d2 : bytes)
+  : comparison :=
+  if with_rtype then then_cmp (r1 ?= r2) (lex_cmp d1 d2) else lex_cmp d1 d2.
+Definition m_unknown_canonical_cmp := unknown_canonical_cmp_gen unknown_canonical_compares_rtype.
+(* u16 and usize are written in native byte order by the default Hasher
+   methods; modelled as the list [rtype; length; data...] of numbers *)
+Definition m_zone_unknown_hash (r : N) (d : bytes) : list N :=
+  (if zone_unknown_hash_feeds_rtype then [r] else []) ++ N.of_nat (length d) :: d.
+
 (* ------------------------------------------------------------------ records *)
 
 (* Record<N, D> and RecordHeader<N> as functions from field codes
@@ -512,3 +544,6 @@ Definition c04_charstr_ccmp := m_charstr_canonical_cmp.
 Definition c04_charstr_hash := m_charstr_hash.
 Definition c04_nsec_ccmp := m_nsec_canonical_cmp.
 Definition c04_record_ccmp := m_record_canonical_cmp.
+Definition c04_svcb_ccmp := m_svcb_canonical_cmp.
+Definition c04_unknown_eq := m_unknown_eq.
+Definition c04_unknown_ccmp := m_unknown_canonical_cmp.
